@@ -83,6 +83,7 @@ namespace hgraph::verif
         sc_stop_seen        = 407,  // engine stop request observed by a sender (no lock)
         sc_quiescent        = 408,  // a = active calls (0)
         sc_detached         = 409,
+        sc_quiesce_wait     = 410,  // lock held, about to wait for entered calls to leave   a = active calls
     };
 
     inline void fire(int p, const void *obj, std::int64_t a, std::int64_t b) noexcept
